@@ -135,3 +135,52 @@ Theorem C07_load_program_ledger_bounded : forall (file : bytes) (n : nat),
   In n (snd (load_program file)) -> (n <= Nat.max HEADER_SIZE (length file))%nat.
 Proof. exact load_program_ledger_bounded. Qed.
 Print Assumptions C07_load_program_ledger_bounded.
+
+(* ---- the per-instruction arms of the writers and the reader as they are in the source (regenerated table) --------
+   [encode_instr] / [decode_instr] (Model/Loader.v) are the instruction codec of the theorems above.  Gen/InstrArms.v is
+   rewritten from src/core/src/program/compiler/sections.rs (EncodedInstr::write_to, byte_len, OpCode) and
+   src/core/src/program/program.rs (DecodedInstr::write_to, decode_instructions) by translators/instr_arms.py on every
+   run of this check; the statements below tie every hand-written arm to that codec, so that ONE arm that writes a field
+   twice, skips one or swaps two breaks them whether or not a generated file contains such an instruction.
+   Definitions: Proofs/InstrArmsP.v. *)
+From Coq Require Import String.
+From MechV Require Import Model.SrcArms Gen.InstrArms Proofs.InstrArmsP.
+Local Open Scope string_scope.
+
+Theorem C07_instr_source_fully_read : ia_unrecognised = [].
+Proof. exact ia_nothing_unrecognised. Qed.
+Print Assumptions C07_instr_source_fully_read.
+
+(* both writers: one arm per variant of the enum as declared; the arm writes the opcode of its kind, then every field exactly
+   once in declaration order with the width of its type, little-endian (VarArg: count, then every argument); byte_len: 1 + the
+   widths; reader: the arm of an opcode reads the fields of its variant in declaration order and binds each to its field *)
+Theorem C07_instr_arms_regular :
+  write_arms_diag "EncodedInstr" "EncodedInstr::write_to" = [] /\ write_arms_diag "DecodedInstr" "DecodedInstr::write_to" = [] /\
+  len_arms_diag = [] /\ irregular (fun a : String.string * tm * tm => fst (fst a)) read_arm_ok (arms_of "decode_instructions") = [] /\
+  run_arms_diag = [].
+Proof. exact ia_arm_sites. Qed.
+Print Assumptions C07_instr_arms_regular.
+
+(* the two instruction enums declare the same kinds and fields; the discriminants of OpCode, OpCode::from_u8 and the opcode
+   constants of the model agree; the reader handles exactly the eight opcodes *)
+Theorem C07_instr_tables_regular :
+  variants_ok = true /\ opcodes_ok = true /\
+  forallb read_arm_ok (arms_of "decode_instructions") = true /\
+  read_arm_opcodes = ["ConstLoad"; "Return"; "NullOp"; "Unop"; "Binop"; "Ternop"; "Quadop"; "VarArg"]%string.
+Proof. exact ia_arms_regular. Qed.
+Print Assumptions C07_instr_tables_regular.
+
+(* meaning: the bytes the extracted arms of BOTH writers produce for any instruction are [encode_instr] *)
+Theorem C07_source_writers_are_encode_instr : forall i : instr,
+  src_encode "EncodedInstr" "EncodedInstr::write_to" i = Some (encode_instr i) /\
+  src_encode "DecodedInstr" "DecodedInstr::write_to" i = Some (encode_instr i).
+Proof. exact src_encode_is_encode_instr. Qed.
+Print Assumptions C07_source_writers_are_encode_instr.
+
+(* meaning: decoding with the extracted arm of a fixed-arity opcode is [decode_instr] (the VarArg arm is compared with its
+   reference term) *)
+Theorem C07_source_reader_is_decode_instr : forall (name : String.string) (op : N) (r : bytes),
+  In (name, op) fixed_opcodes -> (8 <= List.length (op :: r))%nat ->
+  src_decode_fixed name r = decode_instr (op :: r).
+Proof. exact src_decode_is_decode_instr. Qed.
+Print Assumptions C07_source_reader_is_decode_instr.
